@@ -36,6 +36,9 @@ const app = "v.app.x"
 // appFile is the application part of the metric file names (dots become dashes).
 const appFile = "v-app-x"
 
+// otherApp: a second application in the same log directory.
+const otherApp = "pre.v.app.x"
+
 type Config struct {
 	MaxSize  uint64 `json:"max_size"`
 	MaxFiles uint32 `json:"max_files"`
@@ -147,6 +150,14 @@ func build(root string, cfg Config, hist []int) (*world, string) {
 	c.Sentinel.App.Name = app
 	config.ResetGlobalConfig(c)
 	w := &world{dir: dir, cfg: cfg, created: T0 / 1000, lastSec: T0 / 1000}
+	// another application logs into the same directory; its name CONTAINS this application's name. Its file is
+	// none of this writer's business (retention) and none of this searcher's (queries)
+	if w2, err2 := metric.NewDefaultMetricLogWriterOfApp(1<<20, 4, otherApp); err2 == nil {
+		_ = w2.Write(uint64(T0), []*base.MetricItem{{Resource: "OTHER-APP", Classification: 12, PassQps: 1}})
+		if cl, ok := w2.(interface{ Close() error }); ok {
+			_ = cl.Close()
+		}
+	}
 	wr, err := metric.NewDefaultMetricLogWriterOfApp(cfg.MaxSize, cfg.MaxFiles, app)
 	if err != nil {
 		return w, "writer creation failed: " + err.Error()
@@ -363,6 +374,17 @@ type failure struct {
 func (w *world) checkUncut(c *props.Ctx, hist []int, pairs bool) *failure {
 	if n := len(dataFiles(w.dir)); n > int(w.cfg.MaxFiles) {
 		return &failure{"C17:too-many-files", fmt.Sprintf("%d metric log files exist, the configured maximum is %d", n, w.cfg.MaxFiles), nil}
+	}
+	otherLeft := false
+	if es, err := os.ReadDir(w.dir); err == nil {
+		for _, e := range es {
+			if strings.HasPrefix(e.Name(), "pre-"+appFile+"-metrics.log") && !strings.HasSuffix(e.Name(), ".idx") {
+				otherLeft = true
+			}
+		}
+	}
+	if !otherLeft {
+		return &failure{"C17:foreign-file-removed", "the metric log file of another application in the same directory was removed by this writer's retention", nil}
 	}
 	ret := w.retained()
 	// bounded means the OLDEST files go: the retained items are a suffix of the accepted ones
